@@ -190,6 +190,81 @@ def sequential_events(rnd: random.Random, q: bool) -> list:
         except Exception as e:  # noqa: BLE001
             ev["exc"] = type(e).__name__
         evs.append(ev)
+    # 5. parsing with shared (cached / singleton) pattern objects: what a text parses to must not depend on what the same pattern
+    #    object parsed before (optional fields present in one text and absent in the next are where state would leak)
+    from pyoda_time import Duration, Instant, LocalTime, Offset
+    from pyoda_time.text import DurationPattern, InstantPattern, LocalDateTimePattern, LocalTimePattern, OffsetPattern
+
+    def rtime():
+        n = rnd.randrange(86400) * 10**9
+        return LocalTime.from_nanoseconds_since_midnight(n + rnd.choice([0, 0, 123456789, 500000000, 1, 120000000]))
+
+    shared_patterns = [
+        ("LocalTime.extended_iso", lambda: LocalTimePattern.extended_iso, rtime),
+        ("LocalTime.create(HH:mm:ss.FFF)", lambda: LocalTimePattern.create_with_invariant_culture("HH:mm:ss.FFF"),
+         lambda: LocalTime.from_nanoseconds_since_midnight(rnd.randrange(86400) * 10**9 + rnd.choice([0, 0, 123, 500, 120]) * 10**6)),
+        ("LocalTime.variable_precision_iso", lambda: LocalTimePattern.variable_precision_iso, rtime),
+        ("LocalDateTime.extended_iso", lambda: LocalDateTimePattern.extended_iso, lambda: LocalDate(rnd.randint(1, 9999), rnd.randint(1, 12), rnd.randint(1, 28)).at(rtime())),
+        ("Instant.extended_iso", lambda: InstantPattern.extended_iso,
+         lambda: Instant._ctor(days=rnd.randint(-700000, 2900000), nano_of_day=rtime().nanosecond_of_day)),
+        ("Offset.general_invariant", lambda: OffsetPattern.general_invariant, lambda: Offset.from_seconds(rnd.choice([0, 3600, -3600, 19800, 1, -1, 3601, rnd.randint(-64800, 64800)]))),
+        ("Duration.roundtrip", lambda: DurationPattern.roundtrip, lambda: Duration.from_nanoseconds(rnd.choice([1, -1, 10**9, 86400 * 10**9, 0, rnd.randint(-10**15, 10**15)]))),
+        ("LocalDate.create(d, fr-FR)", lambda: LocalDatePattern.create("d", CultureInfo.read_only(CultureInfo("fr-FR"))),
+         lambda: LocalDate(rnd.randint(1900, 2100), rnd.randint(1, 12), rnd.randint(1, 28))),
+    ]
+    for name, get, mk in shared_patterns:
+        for _ in range(12 if q else 120):
+            v = mk()
+            try:
+                text = get().format(v)
+                r = get().parse(text)           # fetched again: the same cached object
+                ok = bool(r.success) and r.value == v
+            except Exception:  # noqa: BLE001
+                ok = False
+            evs.append({"op": "fmt", "culture": name, "text": [1] if ok else [0], "pure": [1], "parse_history": True})
+    # 6. two read-only cultures with one name and different data are two cultures to every cache, in either order of first use
+    for first in (0, 1):
+        try:
+            custom = CultureInfo("en-US").clone()
+            custom.date_time_format.short_date_pattern = "yyyy~MM~dd"
+            pair = [CultureInfo.read_only(custom), CultureInfo.read_only(CultureInfo("en-US"))]
+            want = [LocalDatePattern.create("d", custom).format(probe), LocalDatePattern.create("d", CultureInfo("en-US")).format(probe)]
+            order = [first, 1 - first, first]
+            for i in order:
+                got = LocalDatePattern.create("d", pair[i]).format(probe)
+                evs.append({"op": "fmt", "culture": "en-US customised" if i == 0 else "en-US stock", "text": [ord(ch) for ch in got],
+                            "pure": [ord(ch) for ch in want[i]], "same_name_cultures": True})
+        except Exception as e:  # noqa: BLE001
+            evs.append({"op": "fmt", "culture": "en-US pair", "text": [], "pure": [0], "exc": type(e).__name__})
+    # 7. a provider over a source that answers an alias with the canonical zone (the source contract allows it): the zone
+    #    object served for an id is still the same one on every lookup, in any order of ids
+    class AliasSource:
+        version_id = "alias-test"
+
+        def __init__(self, inner):
+            self.inner = inner
+
+        def get_ids(self):
+            return ["Old/Name", "New/Name"]
+
+        def for_id(self, id_):
+            return self.inner.for_id("Europe/London")       # whichever id is asked for, the zone says "Europe/London"
+
+        def get_system_default_id(self):
+            return None
+
+    try:
+        from pyoda_time.time_zones import DateTimeZoneCache as _DZC
+        from pyoda_time.time_zones._tzdb_date_time_zone_source import TzdbDateTimeZoneSource as _Src
+
+        prov = _DZC(AliasSource(_Src.default))
+        seen2 = {}
+        for zid in ["New/Name", "Old/Name", "New/Name", "Old/Name", "Old/Name", "New/Name"]:
+            z2 = prov[zid]
+            first2 = seen2.setdefault(zid, z2)
+            evs.append({"op": "ident", "what": "custom source " + zid, "same": z2 is first2 and prov.get_zone_or_none(zid) is first2})
+    except Exception as e:  # noqa: BLE001 - this provider refuses such a source: then there is nothing to ask
+        evs.append({"op": "ident", "what": "custom source refused: " + type(e).__name__, "same": True})
     return evs
 
 
